@@ -112,6 +112,60 @@ fn vector_case(i: usize, v: Value) -> Box<dyn Case> {
     })
 }
 
+/// Two recorded proofs made under DIFFERENT transcript contexts, verified together (both orders): recorded proofs keep
+/// verifying, and yielding their recorded masks, when submitted in one call
+fn vector_pair_case(i: usize, a: Value, j: usize, b: Value) -> Box<dyn Case> {
+    case(format!("vector-pair/{:03}+{:03}/n={},d={}", i, j, a["n"], a["d"]), move |_v| {
+        let mut res = CaseResult::new("compatible");
+        let mut sts = Vec::new();
+        let mut proofs = Vec::new();
+        let mut ctxs = Vec::new();
+        let mut masks: Vec<Option<Vec<Scalar>>> = Vec::new();
+        for v in [&a, &b] {
+            let cfg = Cfg::new(v["n"].as_u64().unwrap() as usize, v["m"].as_u64().unwrap() as usize, v["c"].as_u64().unwrap() as usize, v["d"].as_u64().unwrap() as usize);
+            let wit = Wit {
+                values: v["values"].as_array().unwrap().iter().map(|x| x.as_str().unwrap().parse().unwrap()).collect(),
+                blindings: v["blindings"].as_array().unwrap().iter().map(|r| r.as_array().unwrap().iter().map(|s| scalar_of(s.as_str().unwrap())).collect()).collect(),
+                promises: v["promises"].as_array().unwrap().iter().map(|p| p.as_str().map(|s| s.parse().unwrap())).collect(),
+                seed: v["seed"].as_str().map(scalar_of),
+            };
+            let built = build_cached::<P>(&cfg, &wit).honest();
+            sts.push(built.statement.clone());
+            match catch(|| P::from_bytes(&unhex(v["proof"].as_str().unwrap()))) {
+                Ok(Ok(p)) => proofs.push(p),
+                _ => {
+                    res.outcome = "recorded-proof-does-not-decode(skipped)".into();
+                    return res;
+                },
+            }
+            ctxs.push(Ctx { label: leak(v["ctx_label"].as_str().unwrap()), msg: v["ctx_msg"].as_str().map(leak) });
+            masks.push(v["masks"].as_array().map(|m| m.iter().map(|s| scalar_of(s.as_str().unwrap())).collect()));
+        }
+        for order in [[0usize, 1], [1, 0]] {
+            let s2: Vec<_> = order.iter().map(|k| sts[*k].clone()).collect();
+            let p2: Vec<_> = order.iter().map(|k| P::proof_clone(&proofs[*k])).collect();
+            let want: Vec<Option<Vec<Scalar>>> = order.iter().map(|k| masks[*k].clone()).collect();
+            let mut ts: Vec<merlin::Transcript> = order.iter().map(|k| ctxs[*k].transcript()).collect();
+            let obs = verify_observed(&s2, &p2, &mut ts, VerifyAction::RecoverAndVerify);
+            res.executions += 1;
+            res.validated += 1;
+            match &obs.result {
+                Some(Ok(m)) => {
+                    if *m != want {
+                        res.outcome = "incompatible".into();
+                        res.violate(format!("order={:?}/masks", order), "the masks recovered from two recorded 0.4.0 proofs verified together differ from the recorded masks");
+                    }
+                },
+                _ => {
+                    res.outcome = "incompatible".into();
+                    res.violate(format!("order={:?}/verify", order), format!("two proofs recorded from the 0.4.0 release (made under different transcript contexts) no longer verify together: {}", obs.describe()));
+                },
+            }
+        }
+        res
+    })
+}
+
 fn generators_case(g: Value) -> Box<dyn Case> {
     let n = g["n"].as_u64().unwrap() as usize;
     let c = g["c"].as_u64().unwrap() as usize;
@@ -278,7 +332,7 @@ fn cross_case_variant(cfg: Cfg, seeded: bool, variant: &'static str) -> Box<dyn 
 pub fn run(rep: &mut Report) {
     rep.rule = "(1) /verif/vectors/v040.json recorded from the pinned 0.4.0 tree with pristine merlin: 241 proofs (quick lattice x seeded / \
                 unseeded x two contexts, with promises; 31 corner vectors: identity commitments, upper-half values with promises in the upper half, \
-                zero blinding factors in leading positions, seeds 0 / 1 / -1, in-between bit lengths / degrees / aggregation sizes) must still decode, verify and yield the recorded masks; commitments recomputed from \
+                zero blinding factors in leading positions, seeds 0 / 1 / -1, in-between bit lengths / degrees / aggregation sizes) must still decode, verify and yield the recorded masks, alone and in pairs made under different contexts (both orders); commitments recomputed from \
                 the recorded openings must match; SHA3-256 digests of all 42 (bits, capacity) generator sets and the 6 blinding generators \
                 must match; the reference model must accept every recorded proof (this arbitrates R); (2) fresh cross-verification on the \
                 lattice in both directions: library prover -> reference verifier / recoverer, reference prover -> library verifier / recoverer, \
@@ -296,6 +350,25 @@ pub fn run(rep: &mut Report) {
     let mut cases: Vec<Box<dyn Case>> = Vec::new();
     for (i, p) in v["proofs"].as_array().unwrap().iter().enumerate() {
         cases.push(vector_case(i, p.clone()));
+    }
+    // pairs of recorded proofs with the same bit length and degree but different contexts (first of each kind)
+    {
+        let all = v["proofs"].as_array().unwrap();
+        let mut seen = std::collections::BTreeSet::new();
+        for (i, a) in all.iter().enumerate() {
+            if a["ctx_label"].as_str() != Some("ctx-a") || a["n"].as_u64().unwrap() * a["m"].as_u64().unwrap() <= 1 {
+                continue;
+            }
+            let key = (a["n"].as_u64().unwrap(), a["d"].as_u64().unwrap(), a["m"].as_u64().unwrap(), a["seed"].is_null());
+            if !seen.insert(key) {
+                continue;
+            }
+            if let Some((j, b)) = all.iter().enumerate().find(|(_, b)| {
+                b["ctx_label"].as_str() == Some("ctx-b") && b["n"] == a["n"] && b["d"] == a["d"] && b["n"].as_u64().unwrap() * b["m"].as_u64().unwrap() > 1 && b["m"] != a["m"]
+            }) {
+                cases.push(vector_pair_case(i, a.clone(), j, b.clone()));
+            }
+        }
     }
     for g in v["generators"].as_array().unwrap() {
         let big = g["n"].as_u64().unwrap() * g["c"].as_u64().unwrap();
